@@ -248,6 +248,12 @@ def run(prop_id, tier, seed, replay=None):
                 cov[k] += int(cov2.get(k, 0) or 0)
             nviol += int(cov2.get("new_violations", 0) or 0)
         core.write_evidence(prop_id, tier, seed, "model_checking", cov, ASSUMPTIONS, time.time() - t0, nviol)
+        if prop_id == "C01" and not replay and tier in ("quick", "thorough"):
+            # "at every instant ... lookups agree": reads racing with a reorganisation of the store
+            from . import hsrace
+            rc2, cov2 = hsrace.run_race("C01", tier, seed)
+            hsrace.merge_evidence("C01", cov2)
+            rc = max(rc, rc2)
         return rc
     finally:
         shutil.rmtree(sc, ignore_errors=True)
